@@ -564,7 +564,7 @@ class Driver:
     def ccg_tree(self, depth):
         """random CCG derivation tree (depccg JSON) and the spec of its category"""
         gen = self.s["gen"]
-        cat, spec = cat_string(gen, 2)
+        cat, spec = cat_string(gen, gen.choice([1, 2, 2, 3]))      # nested brackets up to three deep
         return self._tree(cat, spec, depth), spec
 
     def _tree(self, cat, spec, depth):
@@ -573,7 +573,7 @@ class Driver:
         if depth == 0 or gen.random() < 0.3:
             return {"word": "w%d" % self._nw, "cat": cat}
         par = lambda s: "(" + s + ")" if ("/" in s or "\\" in s) else s
-        ys, yt = cat_string(gen, 1)
+        ys, yt = cat_string(gen, gen.choice([0, 1, 1, 2]))
         kind = gen.choice(["fa", "ba", "fc", "other"])
         if kind == "fa":      # X/Y  Y  ->  X
             left = self._tree(par(cat) + "/" + par(ys), ["over", spec, yt], depth - 1)
